@@ -44,7 +44,10 @@ SIG_DMET_WRONG_ATOMS = "C15/DMET.__init__/nested-fragment_atoms-fragment-holds-w
 
 SOLVERS = ["HF", "CCSD", "FCI", "MINDO3"]
 BASES = ["sto-3g", "6-31g"]
-LEVELS = [(s, b) for s in SOLVERS for b in BASES]
+FROZEN = [None, 1]
+# an accuracy level as the caller requests it: solver name + the content of the options dictionary of that level
+LEVELS = [(s, b, fz) for s in SOLVERS for b in BASES for fz in FROZEN]
+SIG_OPTIONS = "C15/Fragment.build/caller-options-dict-modified"
 
 
 # ------------------------------------------------------------------------------------------ exact numbers
@@ -93,7 +96,7 @@ def model_eval(ck, name, exprs, shard=300):
     """ck.coq_eval, but a failure (theory no longer builds, evaluation error) is recorded as a violation without input
     and None is returned, so that the implementation-only oracles of the remaining streams still run."""
     try:
-        return ck.coq_eval(name, PREAMBLE, exprs, shard=shard)
+        return ck.coq_eval(name, PREAMBLE, exprs, shard=shard, jobs=3)
     except Exception as e:       # noqa
         ck.violation("C15/model-evaluation/%s" % name, "the Coq model could not be evaluated for stream %s: %s" % (name, str(e)[-600:]),
                      {"kind": "model-eval", "stream": name, "error": str(e)[-3000:]}, found_input=False)
@@ -105,21 +108,22 @@ def make_stub_classes():
     from tangelo.problem_decomposition.oniom._helpers.helper_classes import Fragment
 
     class StubMol:
-        def __init__(self, geometry, basis, sym):
+        def __init__(self, geometry, basis, frozen, sym):
             self.geometry = list(geometry)
             self.basis = basis
+            self.frozen = frozen
             self.sym = sym
 
         @property
         def mf_energy(self):
-            return stub_energy(self.sym, LEVELS.index(("HF", self.basis)), self.geometry)
+            return stub_energy(self.sym, LEVELS.index(("HF", self.basis, self.frozen)), self.geometry)
 
     class StubSolver:
         def __init__(self, name, molecule, **options):
             self.name, self.molecule = name, molecule
 
         def simulate(self):
-            return stub_energy(self.molecule.sym, LEVELS.index((self.name, self.molecule.basis)), self.molecule.geometry)
+            return stub_energy(self.molecule.sym, LEVELS.index((self.name, self.molecule.basis, self.molecule.frozen)), self.molecule.geometry)
 
     class StubFragment(Fragment):
         """Fragment with the two external dependencies replaced: the molecule factory and the solver classes."""
@@ -134,7 +138,7 @@ def make_stub_classes():
                 "MINDO3": lambda m, **o: StubSolver("MINDO3", m, **o)}
 
         def get_mol(self, basis, integral_solver=None, frozen=None):
-            return StubMol(self.geometry, basis, self.sym)
+            return StubMol(self.geometry, basis, frozen, self.sym)
 
         def build(self, integral_solver=None):
             return super().build(integral_solver=object())      # no PySCF integral solver is instantiated
@@ -187,19 +191,43 @@ def run_oniom_impl(case):
     SF.sym = bool(case["sym"])
     geom = [(a[0], tuple(a[1])) for a in case["geom"]]
     user_list = list(geom)
-    info = {"geometry_changed": False, "total": None}
+    info = {"geometry_changed": False, "total": None, "options_changed": None}
+    share = case.get("share", "none")
+    made = []                      # (dict object, snapshot)
+
+    def options(b, fz, registry):
+        """the caller's options dictionary of one level; with sharing, ONE object per distinct content"""
+        content = {"basis": b}
+        if fz is not None:
+            content["frozen_orbitals"] = fz
+        key = (b, fz)
+        if registry is not None and key in registry:
+            return registry[key]
+        d = dict(content)
+        made.append((d, copy.deepcopy(content)))
+        if registry is not None:
+            registry[key] = d
+        return d
+
+    def options_diff():
+        for d, snap in made:
+            if any(k not in d or d[k] != v for k, v in snap.items()):
+                return "options dictionary %s given by the caller is %s afterwards" % (snap, d)
+        return None
     try:
         frags = []
+        reg_all = {} if share == "all" else None
         for f in case["frags"]:
             kw = {}
+            reg = reg_all if share == "all" else ({} if share == "levels" else None)
             if f["low"] is not None:
-                s, b = LEVELS[f["low"]]
+                s, b, fz = LEVELS[f["low"]]
                 kw["solver_low"] = s.lower() if f.get("lower") else s
-                kw["options_low"] = {"basis": b}
+                kw["options_low"] = options(b, fz, reg)
             if f["high"] is not None:
-                s, b = LEVELS[f["high"]]
+                s, b, fz = LEVELS[f["high"]]
                 kw["solver_high"] = s
-                kw["options_high"] = {"basis": b}
+                kw["options_high"] = options(b, fz, reg)
             links = [Link(l[0], l[1], Fraction(l[2][0], l[2][1]).__float__() if l[2][1] != 1 else l[2][0], l[3])
                      for l in f["links"]]
             frags.append(SF(selected_atoms=sel_py(f["sel"]), broken_links=links if (links or f.get("emptylist")) else None, **kw))
@@ -212,6 +240,7 @@ def run_oniom_impl(case):
     except Exception as e:           # noqa
         info["geometry_changed"] = (user_list != geom)
         out = err_str(e)
+    info["options_changed"] = options_diff()
     return out, info
 
 
@@ -244,6 +273,27 @@ def gen_link(rng, n):
 
 
 def gen_oniom(rng, mode):
+    c = gen_oniom0(rng, mode)
+    # how the caller builds the option dictionaries: one fresh dict per level, one object shared by the levels of a
+    # fragment that ask for the same content, or one object per distinct content for the whole calculation
+    c["share"] = rng.choice(["none", "levels", "all", "all"])
+    if rng.random() < 0.6:
+        # the whole calculation in one basis / frozen-orbital setting (the usual use: only the solvers differ), so that
+        # shared dictionaries really are shared
+        b, fz = rng.choice(BASES), rng.choice(FROZEN)
+        remap = {}
+
+        def same_opts(lv):
+            if lv is None:
+                return None
+            return LEVELS.index((LEVELS[lv][0], b, fz))
+        for f in c["frags"]:
+            f["low"], f["high"] = same_opts(f["low"]), same_opts(f["high"])
+        c["uniform_options"] = [b, fz]
+    return c
+
+
+def gen_oniom0(rng, mode):
     """mode: 'mixed' (any fragments), 'telescope' (system + models at identical levels), 'whole' (model == system)."""
     n = rng.randint(2, 6)
     geom = gen_geom(rng, n)
@@ -251,7 +301,7 @@ def gen_oniom(rng, mode):
     sysL = rng.randrange(len(LEVELS))
     sysf = {"sel": ["all"], "low": sysL, "high": None, "links": [], "lower": rng.random() < 0.3}
     if mode == "whole":
-        H = rng.choice([l for l in range(len(LEVELS)) if l != sysL])
+        H = rng.choice([l for l in range(len(LEVELS)) if LEVELS[l][0] != LEVELS[sysL][0]])
         r = rng.random()
         if r < 0.3:
             sel = ["all"]
@@ -311,6 +361,9 @@ def oniom_oracle(case, out, info):
         finds.append((SIG_ALIAS if alias_input else "C15/ONIOM/caller-geometry-modified",
                       "the geometry list given by the caller has %s atoms after ONIOMProblemDecomposition(...) "
                       "(was %d)" % (info.get("n_after"), len(case["geom"]))))
+    if info.get("options_changed"):
+        finds.append((SIG_OPTIONS, "%s (share=%s): a later level / fragment / run given the same dictionary no longer gets what "
+                      "the caller asked for" % (info["options_changed"], case.get("share", "none"))))
     if not out.startswith("Ok"):
         return finds
     geom = [(a[0], tuple(a[1])) for a in case["geom"]]
@@ -320,7 +373,7 @@ def oniom_oracle(case, out, info):
     if len(systems) == 1 and all(m["low"] is not None and m["low"] == m["high"] for m in models):
         expect = stub_energy(case["sym"], systems[0]["low"], geom)
         if info["total"] != expect:
-            finds.append((SIG_ALIAS if alias_input else "C15/ONIOM.simulate/identical-levels-do-not-telescope",
+            finds.append((SIG_ALIAS if (alias_input and info.get("geometry_changed")) else "C15/ONIOM.simulate/identical-levels-do-not-telescope",
                           "model fragments at identical high/low level: total %s != low-level system energy %s"
                           % (info["total"], expect)))
     if case.get("mode") == "whole" and len(systems) == 1 and len(models) == 1:
@@ -347,14 +400,18 @@ def stream_oniom(ck):
         cases += [gen_oniom(ck.rng, mode) for _ in range(n)]
     ck.stream("oniom", "ONIOM with stub molecules/solvers (exact energies E(level, geometry)), 2-6 atoms, 1-4 fragments, "
               "selections None / count / index list (negative, out of range, duplicates) / ill-typed, 0-2 links per "
-              "fragment with dyadic factors; non-trivial = at least 2 fragments and construction succeeded")
+              "fragment with dyadic factors; levels = solver x basis (sto-3g, 6-31g) x frozen_orbitals (None, 1), option "
+              "dictionaries fresh per level or ONE object shared by the levels of a fragment / by the whole calculation "
+              "(caller's dictionaries snapshotted); non-trivial = at least 2 fragments and construction succeeded")
     impl, exprs = [], []
     for c in cases:
         out, info = run_oniom_impl(c)
         impl.append((out, info))
         exprs.append(oniom_coq_expr(c, asis))
         tags = ["mode:" + c["mode"], out.split(" ")[0] if out.startswith("Err") else "Ok"] + ["sel:" + f["sel"][0] for f in c["frags"]]
-        tags += ["links:%d" % sum(len(f["links"]) for f in c["frags"])]
+        tags += ["links:%d" % sum(len(f["links"]) for f in c["frags"]), "options-dicts:" + c.get("share", "none")]
+        if c.get("uniform_options"):
+            tags.append("uniform-options:%s/frozen=%s" % tuple(c["uniform_options"]))
         ck.case("oniom", json.dumps(c, sort_keys=True), nontrivial=out.startswith("Ok") and len(c["frags"]) >= 2,
                 sample={"case": c, "impl": out[:300]}, tags=tags)
         for sig, desc in oniom_oracle(c, out, info):
@@ -887,6 +944,70 @@ def support_dmet(ck):
             ck.violation("C15/DMET.simulate/electron-sum", "fragment_atoms=%s (%s): |sum n_frag - N| = %.3e" % (c["fa"], c["loc"], r["nerr"]), rep)
 
 
+def run_support_dmet_nsum(case):
+    """Real DMET run from a given initial_chemical_potential with the library's default optimizer.  After simulate() the
+    electron-number mismatch is re-evaluated at the returned chemical potential, together with its slope in mu."""
+    from tangelo import SecondQuantizedMolecule
+    from tangelo.problem_decomposition.dmet.dmet_problem_decomposition import DMETProblemDecomposition, Localization
+    geom = [(a[0], tuple(a[1])) for a in case["geom"]]
+    mol = SecondQuantizedMolecule(geom, 0, 0, basis="sto-3g")
+    d = DMETProblemDecomposition({"molecule": mol, "fragment_atoms": copy.deepcopy(case["fa"]), "fragment_solvers": "fci",
+                                  "electron_localization": getattr(Localization, case["loc"]),
+                                  "initial_chemical_potential": case["mu0"]})
+    d.build()
+    try:
+        e = float(d.simulate())
+    except Exception as ex:           # noqa -- any explicit failure is a refusal, not a silent wrong electron count (far-off
+        # chemical potentials can also make a fragment SCF fail inside PySCF: DIIS on a singular matrix)
+        return {"refused": "%s: %s" % (type(ex).__name__, str(ex)[:160])}
+    mu = float(d.chemical_potential)
+    res = float(d._oneshot_loop(mu))
+    h = 1e-3
+    slope = (float(d._oneshot_loop(mu + h)) - res) / h
+    return {"e": e, "mu": mu, "residual": res, "slope": slope, "n_iter": int(d.n_iter)}
+
+
+NEWTON_TOL = 1e-5        # tol= of scipy.optimize.newton in DMETProblemDecomposition._default_optimizer (a step size in mu)
+
+
+def support_dmet_nsum(ck):
+    quick = ck.tier == "quick"
+    ck.stream("support-dmet-electron-sum", "SUPPORT (numerical, not proof): real DMET runs (FCI fragments, sto-3g) on non-symmetric "
+              "H6 / H4 chains with INEQUIVALENT fragments and initial_chemical_potential far from the root (0.1 .. 2.0, negative too): "
+              "after simulate() |sum n_frag - N| re-evaluated at the returned chemical potential must be below 4*tol*|d(sum n)/d mu| + 1e-7 "
+              "(tol = 1e-5, the optimizer's step tolerance); an explicit RuntimeError is accepted (tagged refused)")
+    h6 = [["H", [0., 0., 1.0 * i + 0.1 * i * i]] for i in range(6)]
+    cases = [{"geom": h6, "fa": [2, 2, 2], "loc": "meta_lowdin", "mu0": 0.5}, {"geom": h6, "fa": [2, 2, 2], "loc": "meta_lowdin", "mu0": 1.0},
+             {"geom": h6, "fa": [2, 2, 2], "loc": "nao", "mu0": 1.0}, {"geom": zigzag(4), "fa": [1, 3], "loc": "meta_lowdin", "mu0": 0.7}]
+    if not quick:
+        for fa in ([2, 2, 2], [1, 2, 3], [1, 1, 1, 1, 1, 1], [2, 4], [[2, 0], [1, 3], [4, 5]]):
+            for mu0 in (0.0, 0.1, -0.5, 1.0):
+                cases.append({"geom": zigzag(6), "fa": fa, "loc": "meta_lowdin", "mu0": mu0})
+        cases.append({"geom": zigzag(6), "fa": [2, 2, 2], "loc": "meta_lowdin", "mu0": 2.0})
+        for _ in range(8):
+            n = ck.rng.choice([4, 6])
+            cuts = sorted(ck.rng.sample(range(1, n), ck.rng.randint(1, 2)))
+            fa = [b - a for a, b in zip([0] + cuts, cuts + [n])]
+            cases.append({"geom": zigzag(n, ck.rng.uniform(0.9, 1.3)), "fa": fa, "loc": ck.rng.choice(["meta_lowdin", "nao"]),
+                          "mu0": round(ck.rng.uniform(-1.5, 1.5), 3)})
+    for c in cases:
+        r = run_support_dmet_nsum(c)
+        ck.case("support-dmet-electron-sum", json.dumps(c), nontrivial="e" in r and abs(c["mu0"]) >= 0.1,
+                sample={"case": c, "result": r}, tags=[c["loc"], "natm=%d" % len(c["geom"]),
+                                                       ("refused:" + r["refused"].split(":")[0]) if "refused" in r else "ok",
+                                                       "mu0:far" if abs(c["mu0"]) >= 0.4 else "mu0:near"])
+        if "refused" in r:
+            ck.notes.setdefault("dmet_electron_sum_refusals", []).append({"fa": c["fa"], "loc": c["loc"], "mu0": c["mu0"], "error": r["refused"]})
+            continue
+        bound = 4 * NEWTON_TOL * abs(r["slope"]) + 1e-7
+        if abs(r["residual"]) > bound:
+            ck.violation("C15/DMET.simulate/electron-sum-not-reached-silently",
+                         "fragment_atoms=%s (%s), initial_chemical_potential=%s: simulate() returned E=%.8f at mu=%.6f without any "
+                         "error, but sum n_frag - N = %.3e there (bound %.1e from the optimizer's tolerance; %d cost evaluations)"
+                         % (c["fa"], c["loc"], c["mu0"], r["e"], r["mu"], r["residual"], bound, r["n_iter"]),
+                         {"kind": "support-dmet-nsum", "case": c, "result": r})
+
+
 def zigzag(n, scale=1.0):
     return [["H", [0.31 * (-1) ** i * (1 + 0.13 * i) * scale, 0.045 * i * i, (1.05 * i + 0.07 * i * i) * scale]] for i in range(n)]
 
@@ -947,47 +1068,101 @@ def support_dmet_relabel(ck):
 
 
 def run_support_oniom(case):
+    """ONIOM with PySCF-backed solvers.  The expected value is computed from an independently built molecule of the whole
+    system (basis of the case) and a directly constructed solver.  Option dictionaries: case['share'] in none / levels / all
+    (ONE dict object per distinct content for the levels of a fragment / for the whole calculation).
+    Returns (e_oniom, e_expected, options_changed)."""
     from tangelo import SecondQuantizedMolecule
     from tangelo.algorithms import CCSDSolver, FCISolver
     from tangelo.problem_decomposition.oniom.oniom_problem_decomposition import ONIOMProblemDecomposition
     from tangelo.problem_decomposition.oniom._helpers.helper_classes import Fragment, Link
     geom = [(a[0], tuple(a[1])) for a in case["geom"]]
-    mol = SecondQuantizedMolecule(geom, 0, 0, basis="sto-3g")
-    ref = {"HF": lambda: mol.mf_energy, "CCSD": lambda: CCSDSolver(mol).simulate(), "FCI": lambda: FCISolver(mol).simulate()}
-    frags = [Fragment(solver_low=case["low"])]
+    basis = case.get("basis", "sto-3g")
+    share = case.get("share", "none")
+    made = []
+
+    def options(b, fz, registry):
+        content = {"basis": b}
+        if fz is not None:
+            content["frozen_orbitals"] = fz
+        if registry is not None and (b, repr(fz)) in registry:
+            return registry[(b, repr(fz))]
+        d = dict(content)
+        made.append((d, copy.deepcopy(content)))
+        if registry is not None:
+            registry[(b, repr(fz))] = d
+        return d
+    reg_all = {} if share == "all" else None
+    frags = [Fragment(solver_low=case["low"], options_low=options(basis, None, reg_all))]
     for m in case["models"]:
+        reg = reg_all if share == "all" else ({} if share == "levels" else None)
         links = [Link(*l) for l in m.get("links", [])]
-        frags.append(Fragment(solver_low=m["low"], solver_high=m["high"], selected_atoms=copy.deepcopy(m["sel"]), broken_links=links or None))
+        frags.append(Fragment(solver_low=m["low"], options_low=options(m.get("basis", basis), m.get("frozen"), reg),
+                              solver_high=m["high"], options_high=options(m.get("basis", basis), m.get("frozen"), reg),
+                              selected_atoms=copy.deepcopy(m["sel"]), broken_links=links or None))
+    if case.get("model_first"):
+        frags = frags[1:] + frags[:1]
     e = ONIOMProblemDecomposition({"geometry": list(geom), "fragments": frags}).simulate()
-    return float(e), float(ref[case["expect"]]())
+    changed = None
+    for d, snap in made:
+        if any(k not in d or d[k] != v for k, v in snap.items()):
+            changed = "options dictionary %s given by the caller is %s afterwards" % (snap, d)
+    # independent pieces
+    mol = SecondQuantizedMolecule(geom, 0, 0, basis=basis, frozen_orbitals=case.get("expect_frozen"))
+    ref = {"HF": lambda: mol.mf_energy, "CCSD": lambda: CCSDSolver(mol).simulate(), "FCI": lambda: FCISolver(mol).simulate()}
+    return float(e), float(ref[case["expect"]]()), changed
 
 
 def support_oniom(ck):
-    ck.stream("support-oniom", "SUPPORT (numerical, not proof): ONIOM with PySCF-backed solvers (HF / CCSD / FCI, sto-3g) on H4: "
-              "identical levels -> E_low(system); model = system (None, count, index list, permuted list) -> E_high(system); 1e-7")
+    ck.stream("support-oniom", "SUPPORT (numerical, not proof): ONIOM with PySCF-backed solvers (HF / CCSD / FCI; sto-3g and 6-31g; "
+              "frozen_orbitals) on non-symmetric H4 and LiH+H2, option dictionaries fresh per level or ONE object shared by several "
+              "levels / fragments: identical levels -> E_low(system); model = system (None, count, index list, permuted list) -> "
+              "E_high(system); expected values from an independently built molecule and solver; 1e-7; caller's dictionaries unchanged")
     g = [["H", [0., 0., 0.]], ["H", [0., 0.1, 0.8]], ["H", [0.1, 0., 2.0]], ["H", [0., 0., 2.75]]]
+    lih_h2 = [["Li", [0., 0., 0.]], ["H", [0., 0.05, 1.6]], ["H", [0., 2.5, 0.3]], ["H", [0.1, 2.5, 1.05]]]
     cases = [{"geom": g, "low": "HF", "expect": "HF", "models": [{"low": "CCSD", "high": "CCSD", "sel": [0, 1]}]},
-             {"geom": g, "low": "HF", "expect": "CCSD", "models": [{"low": "HF", "high": "CCSD", "sel": [2, 0, 3, 1]}]}]
+             {"geom": g, "low": "HF", "expect": "CCSD", "models": [{"low": "HF", "high": "CCSD", "sel": [2, 0, 3, 1]}]},
+             # one dictionary object with a non-default basis shared by the two levels of the model / by every level
+             {"geom": g, "basis": "6-31g", "share": "levels", "low": "HF", "expect": "HF", "models": [{"low": "HF", "high": "HF", "sel": [0, 1]}]},
+             {"geom": g, "basis": "6-31g", "share": "all", "low": "HF", "expect": "CCSD", "models": [{"low": "HF", "high": "CCSD", "sel": [3, 1, 0, 2]}]},
+             # shared dictionary with frozen_orbitals for a model at identical levels (default basis)
+             {"geom": lih_h2, "share": "levels", "low": "HF", "expect": "HF",
+              "models": [{"low": "CCSD", "high": "CCSD", "sel": 2, "frozen": 1}]}]
     if ck.tier != "quick":
         cases += [{"geom": g, "low": "HF", "expect": "HF",
                    "models": [{"low": "FCI", "high": "FCI", "sel": 2, "links": [[1, 2, 0.7, "H"], [0, 3, 0.5, "H"]]},
                               {"low": "CCSD", "high": "CCSD", "sel": [3, 2]}]},
-                  {"geom": g, "low": "CCSD", "expect": "CCSD", "models": [{"low": "HF", "high": "HF", "sel": [1, 2]}]}]
+                  {"geom": g, "low": "CCSD", "expect": "CCSD", "models": [{"low": "HF", "high": "HF", "sel": [1, 2]}]},
+                  {"geom": g, "basis": "6-31g", "share": "all", "model_first": True, "low": "HF", "expect": "HF",
+                   "models": [{"low": "CCSD", "high": "CCSD", "sel": [2, 3]}, {"low": "HF", "high": "HF", "sel": 2}]},
+                  {"geom": g, "basis": "6-31g", "share": "all", "low": "HF", "expect": "FCI", "models": [{"low": "HF", "high": "FCI", "sel": None}]},
+                  {"geom": lih_h2, "share": "all", "model_first": True, "low": "HF", "expect": "HF",
+                   "models": [{"low": "FCI", "high": "FCI", "sel": [0, 1], "frozen": [0]}, {"low": "CCSD", "high": "CCSD", "sel": [2, 3]}]}]
         for sel in (None, 4, [0, 1, 2, 3]):
             cases.append({"geom": g, "low": "HF", "expect": "FCI", "models": [{"low": "HF", "high": "FCI", "sel": sel}]})
         for _ in range(4):
             gg = [["H", [ck.rng.uniform(-0.2, 0.2), ck.rng.uniform(-0.2, 0.2), 0.85 * i + ck.rng.uniform(-0.1, 0.1)]] for i in range(4)]
             p = list(range(4))
             ck.rng.shuffle(p)
-            cases.append({"geom": gg, "low": "HF", "expect": "CCSD", "models": [{"low": "HF", "high": "CCSD", "sel": p}]})
-            cases.append({"geom": gg, "low": "CCSD", "expect": "CCSD", "models": [{"low": "FCI", "high": "FCI", "sel": p[:2]}]})
+            sh = ck.rng.choice(["none", "levels", "all"])
+            bs = ck.rng.choice(["sto-3g", "6-31g"])
+            cases.append({"geom": gg, "basis": bs, "share": sh, "low": "HF", "expect": "CCSD", "models": [{"low": "HF", "high": "CCSD", "sel": p}]})
+            cases.append({"geom": gg, "basis": bs, "share": sh, "model_first": ck.rng.random() < 0.5, "low": "CCSD", "expect": "CCSD",
+                          "models": [{"low": "FCI", "high": "FCI", "sel": p[:2]}]})
     for c in cases:
-        e, ref = run_support_oniom(c)
-        ck.case("support-oniom", json.dumps(c), nontrivial=True, sample={"case": c, "e": e, "expected": ref}, tags=["expect:" + c["expect"]])
+        e, ref, changed = run_support_oniom(c)
+        same = c["models"][0]["low"] == c["models"][0]["high"]
+        ck.case("support-oniom", json.dumps(c), nontrivial=True, sample={"case": c, "e": e, "expected": ref},
+                tags=["expect:" + c["expect"], "basis:" + c.get("basis", "sto-3g"), "options-dicts:" + c.get("share", "none")]
+                + (["frozen_orbitals"] if any(m.get("frozen") is not None for m in c["models"]) else []))
+        rep = {"kind": "support-oniom", "case": c, "e": e, "expected": ref}
+        if changed:
+            ck.violation(SIG_OPTIONS, changed + " (real solvers, share=%s)" % c.get("share", "none"), rep)
         if abs(e - ref) > 1e-7:
-            ck.violation("C15/ONIOM.simulate/real-solvers/%s" % ("identical-levels" if c["models"][0]["low"] == c["models"][0]["high"] else "model-is-system"),
-                         "ONIOM energy %.10f differs from %s energy of the system %.10f" % (e, c["expect"], ref),
-                         {"kind": "support-oniom", "case": c, "e": e, "expected": ref})
+            ck.violation("C15/ONIOM.simulate/real-solvers/%s%s" % ("identical-levels" if same else "model-is-system",
+                                                                   "/shared-options-dict" if c.get("share", "none") != "none" else ""),
+                         "ONIOM energy %.10f differs from the %s/%s energy of the system %.10f computed from an independently built "
+                         "molecule (option dictionaries: %s)" % (e, c["expect"], c.get("basis", "sto-3g"), ref, c.get("share", "none")), rep)
 
 
 # ------------------------------------------------------------------------------------------ main
@@ -1016,7 +1191,7 @@ def run(ck):
     warnings.filterwarnings("ignore")
     # every stream runs whatever happened before (broken proof step, broken model, crash of another stream): the
     # implementation-only oracles keep searching for a concrete failing input
-    for stream in (stream_oniom, stream_relink, stream_mi, stream_dmet, support_dmet, support_dmet_relabel, support_oniom):
+    for stream in (stream_oniom, stream_relink, stream_mi, stream_dmet, support_dmet, support_dmet_nsum, support_dmet_relabel, support_oniom):
         try:
             stream(ck)
         except Exception:        # noqa
@@ -1091,9 +1266,15 @@ def replay(data):
         if "e" in res["nested"] and "e" in res["hand"]:
             return 1 if abs(res["nested"]["e"] - res["hand"]["e"]) > 1e-6 else 0
         return 1
+    if kind == "support-dmet-nsum":
+        res = run_support_dmet_nsum(r["case"])
+        print(res)
+        if "refused" in res:
+            return 0
+        return 1 if abs(res["residual"]) > 4 * NEWTON_TOL * abs(res["slope"]) + 1e-7 else 0
     if kind == "support-oniom":
-        e, ref = run_support_oniom(r["case"])
-        print(e, ref)
-        return 1 if abs(e - ref) > 1e-7 else 0
+        e, ref, changed = run_support_oniom(r["case"])
+        print(e, ref, changed)
+        return 1 if (abs(e - ref) > 1e-7 or changed) else 0
     print(json.dumps(r, indent=1)[:4000])
     return 1
